@@ -130,17 +130,18 @@ Failing(s, p) == LET NE == NonEdges(s, SPEC)
                                     \/ c = "bonded"  /\ ~CNotBonded(B, p)}
 
 (* ------------------------------------------------- declarative form (statement) *)
-DistEdges(s, v) ==
-  LET NE == NonEdges(s, v)
-      B  == OldE(s, v) \cup NameEdges(s, v)
-      InFallBack(p) == SameRes(s, v, p[1], p[2]) /\ FallBack(s, v, ResOf(s, v, p[1]))
+\* distance bonds, given the non-edges NE and the bonds B present before distances are looked at
+DistEdgesGiven(s, v, NE, B) ==
+  LET InFallBack(p) == SameRes(s, v, p[1], p[2]) /\ FallBack(s, v, ResOf(s, v, p[1]))
   IN IF s.dist
      THEN {p \in Pairs(s) : Rule(s, v, p, NE, B) /\ ~(v = "nofallback" /\ InFallBack(p))}
      ELSE IF v = "fallback-nodist" THEN {p \in Pairs(s) : InFallBack(p) /\ Rule(s, v, p, {}, B)}
      ELSE {}
-Edges(s, v)    == OldE(s, v) \cup NameEdges(s, v) \cup DistEdges(s, v)
+DistEdges(s, v) == DistEdgesGiven(s, v, NonEdges(s, v), OldE(s, v) \cup NameEdges(s, v))
+Edges(s, v)     == OldE(s, v) \cup NameEdges(s, v) \cup DistEdges(s, v)
 \* bonds that carry a 'distance' attribute (name-based and guessed ones), with the squared length in pm^2
-DistAttr(s, v) == {<<p[1], p[2], D2(s, p[1], p[2])>> : p \in NameEdges(s, v) \cup DistEdges(s, v)}
+WithD2(s, P)    == {<<p[1], p[2], D2(s, p[1], p[2])>> : p \in P}
+DistAttr(s, v)  == WithD2(s, NameEdges(s, v) \cup DistEdges(s, v))
 
 (* ------------------------------- operational form (order of the implementation) *)
 OpP1(s) == OldE(s, SPEC) \cup NameEdges(s, SPEC)                       \* loop over residues: edges by name
@@ -153,7 +154,7 @@ OpGL(s) == IF s.dist                                                    \* globa
            THEN {p \in Pairs(s) : Rule(s, SPEC, p, NonEdges(s, SPEC), OpP1(s) \cup OpFB(s))}
            ELSE {}
 OpEdges(s)    == OpP1(s) \cup OpFB(s) \cup OpGL(s)
-OpDistAttr(s) == {<<p[1], p[2], D2(s, p[1], p[2])>> : p \in NameEdges(s, SPEC) \cup OpFB(s) \cup OpGL(s)}
+OpDistAttr(s) == WithD2(s, NameEdges(s, SPEC) \cup OpFB(s) \cup OpGL(s))
 
 (* ------------------------------------------------------------ molecule split *)
 UnitAdj(E, U, W) == U # W /\ \E p \in E : (p[1] \in U /\ p[2] \in W) \/ (p[2] \in U /\ p[1] \in W)
@@ -161,15 +162,20 @@ RECURSIVE Close(_, _)
 Close(S, A) == LET N == S \cup {uw[2] : uw \in {x \in A : x[1] \in S}} IN IF N = S THEN S ELSE Close(N, A)
 Comps(Units, E) == LET A == {uw \in Units \X Units : UnitAdj(E, uw[1], uw[2])} IN {Close({u}, A) : u \in Units}
 
-Molecules(s, v) ==
-  LET E     == Edges(s, v)
-      Units == IF v = "atomcomp" THEN {{i} : i \in Idx(s)} ELSE Residues(s, v)
+MolsGiven(s, v, E) ==
+  LET Units == IF v = "atomcomp" THEN {{i} : i \in Idx(s)} ELSE Residues(s, v)
       M     == {UNION c : c \in Comps(Units, E)}
   IN IF v = "allone" THEN {Idx(s)}
      ELSE IF v = "lose-isolated" THEN {m \in M : Cardinality(m) > 1}
      ELSE M
+Molecules(s, v) == MolsGiven(s, v, Edges(s, v))
 
-Out(s, v)    == [mols |-> Molecules(s, v), edges |-> Edges(s, v), dist |-> DistAttr(s, v)]
+\* the result of bond guessing: molecules (sets of atoms), bonds, bonds carrying a distance
+Out(s, v) == LET O == OldE(s, v)
+                 N == NameEdges(s, v)
+                 D == DistEdgesGiven(s, v, NonEdges(s, v), O \cup N)
+                 E == O \cup N \cup D
+             IN [mols |-> MolsGiven(s, v, E), edges |-> E, dist |-> WithD2(s, N \cup D)]
 Sensitive(s) == LET o == Out(s, SPEC) IN {v \in Variants : Out(s, v) # o}
 
 (* ------------------------------------------------------------- well-formedness *)
@@ -192,6 +198,8 @@ WellFormed(s) ==
    x atom names x pre-existing bonds x modes x fudge.  State = (input, expected result, sensitive variants).        *)
 VARIABLES sys, out, sens
 vars == <<sys, out, sens>>
+PENDING == {"pending"}
+Done == sens # PENDING
 
 TabBlocks == << [resname |-> "R", names |-> <<"A", "B", "C">>, edges |-> << <<"A", "B">> >>] >>
 Build(el, xp, rid, ml, rn, nm, od, mode, fu) ==
@@ -205,9 +213,14 @@ Init == \E el \in [1..3 -> Els], xp \in XPairs, rid \in ResidTriples, ml \in Mol
           /\ WellFormed(s)
           /\ ~AnyNear(s)
           /\ sys = s
-          /\ out = Out(s, SPEC)
-          /\ sens = Sensitive(s)
-Next == UNCHANGED vars
+          /\ out = [mols |-> {}, edges |-> {}, dist |-> {}]
+          /\ sens = PENDING
+\* the evaluation is a step so that TLC's workers share it
+Eval == /\ sens = PENDING
+        /\ out' = Out(sys, SPEC)
+        /\ sens' = Sensitive(sys)
+        /\ UNCHANGED sys
+Next == Eval
 Spec == Init /\ [][Next]_vars
 
 \* second initial predicate: exports the constant table and the variant names to the harness (input generation aims
@@ -216,28 +229,39 @@ TblInit == sys = Radius /\ out = Variants /\ sens = ConjNames
 
 (* ---- what the model is checked for (clauses of the statement, written independently of Molecules/Edges) ---- *)
 ResIn(M)   == {R \in Residues(sys, SPEC) : R \subseteq M}
-Partition  == /\ UNION out.mols = Idx(sys)
+Partition_  == /\ UNION out.mols = Idx(sys)
               /\ \A M1, M2 \in out.mols : M1 # M2 => M1 \cap M2 = {}
               /\ {} \notin out.mols
-ResiduesWhole == \A R \in Residues(sys, SPEC) : \E M \in out.mols : R \subseteq M
+ResiduesWhole_ == \A R \in Residues(sys, SPEC) : \E M \in out.mols : R \subseteq M
 \* no way to cut the residues of a molecule in two parts without cutting a bond ...
-MolConnected  == \A M \in out.mols : \A S \in SUBSET ResIn(M) :
+MolConnected_  == \A M \in out.mols : \A S \in SUBSET ResIn(M) :
                     (S # {} /\ S # ResIn(M)) => \E R \in S, Q \in ResIn(M) \ S : UnitAdj(out.edges, R, Q)
 \* ... and no bond between two molecules
-MolMaximal    == \A p \in out.edges : \E M \in out.mols : p[1] \in M /\ p[2] \in M
-InputMolsNeverFused == \A i, j \in Idx(sys) : At(sys, i).mol # At(sys, j).mol => ResOf(sys, SPEC, i) # ResOf(sys, SPEC, j)
-OldKept       == \A k \in DOMAIN sys.old : Norm(sys.old[k][1], sys.old[k][2]) \in out.edges
-NameExact     ==   \* in a residue bonded by names, two atoms the block knows are bonded iff the block (or the input) says so
+MolMaximal_    == \A p \in out.edges : \E M \in out.mols : p[1] \in M /\ p[2] \in M
+InputMolsNeverFused_ == \A i, j \in Idx(sys) : At(sys, i).mol # At(sys, j).mol => ResOf(sys, SPEC, i) # ResOf(sys, SPEC, j)
+OldKept_       == \A k \in DOMAIN sys.old : Norm(sys.old[k][1], sys.old[k][2]) \in out.edges
+NameExact_     ==   \* in a residue bonded by names, two atoms the block knows are bonded iff the block (or the input) says so
   \A p \in Pairs(sys) :
      (SameRes(sys, SPEC, p[1], p[2]) /\ NameBased(sys, SPEC, ResOf(sys, SPEC, p[1]))
       /\ At(sys, p[1]).name \in BNames(BlockOf(sys, At(sys, p[1]).resname))
       /\ At(sys, p[2]).name \in BNames(BlockOf(sys, At(sys, p[1]).resname)))
      => (p \in out.edges <=> (BEdge(BlockOf(sys, At(sys, p[1]).resname), At(sys, p[1]).name, At(sys, p[2]).name)
                               \/ p \in OldE(sys, SPEC)))
-GuessedObeyCriteria ==   \* every bond that is neither old nor from a block satisfies every conjunct
+GuessedObeyCriteria_ ==   \* every bond that is neither old nor from a block satisfies every conjunct
   \A p \in out.edges \ (OldE(sys, SPEC) \cup NameEdges(sys, SPEC)) :
      /\ sys.dist /\ CRadii(sys, p) /\ Within(sys, SPEC, p[1], p[2]) /\ CNotHH(sys, p) /\ CNoHAcross(sys, SPEC, p)
-NothingWithoutMode == (~sys.name /\ ~sys.dist) => out.edges = OldE(sys, SPEC)
-OpIsDecl      == OpEdges(sys) = out.edges /\ OpDistAttr(sys) = out.dist
-DistOnlyOnNew == \A t \in out.dist : <<t[1], t[2]>> \in out.edges
+NothingWithoutMode_ == (~sys.name /\ ~sys.dist) => out.edges = OldE(sys, SPEC)
+OpIsDecl_      == OpEdges(sys) = out.edges /\ OpDistAttr(sys) = out.dist
+DistOnlyOnNew_ == \A t \in out.dist : <<t[1], t[2]>> \in out.edges
+Partition == Done => Partition_
+ResiduesWhole == Done => ResiduesWhole_
+MolConnected == Done => MolConnected_
+MolMaximal == Done => MolMaximal_
+InputMolsNeverFused == Done => InputMolsNeverFused_
+OldKept == Done => OldKept_
+NameExact == Done => NameExact_
+GuessedObeyCriteria == Done => GuessedObeyCriteria_
+NothingWithoutMode == Done => NothingWithoutMode_
+OpIsDecl == Done => OpIsDecl_
+DistOnlyOnNew == Done => DistOnlyOnNew_
 =============================================================================
